@@ -8,6 +8,7 @@
 (* without queuing an error, and the decoded value equals the original.       *)
 EXTENDS ScpiParser, Json, IOUtils
 F == INSTANCE ScpiFormat
+G == INSTANCE ScpiGFormat
 T == ndJsonDeserialize(IOEnv.TRACE)
 VARIABLE l
 Init == l \in 1..Len(T)
@@ -23,9 +24,19 @@ Expected ==
   ELSE BlockHeader(Len(Rec.v)) \o Rec.v
 ExpType == IF Rec.t \in {"int", "bool"} THEN TokType(Rec.base) ELSE IF Rec.t = "text" THEN "DQUOTE" ELSE "BLOCK"
 OneToken == LET d == ProgramData(Rec.out, 1) IN d.type = ExpType /\ d.next = Len(Rec.out) + 1
-Diff == (IF Rec.out = Expected THEN {} ELSE {"emitted"})
+(* finite floats / doubles: the emitted text is one decimal token, is accepted, and what it decodes to lies within 0.7 *)
+(* unit of the last emitted digit of the original value (half a unit for the rounding of the text, the rest for the     *)
+(* conversion of the text to the nearest binary value); the text itself is C16's subject                                *)
+FloatDiff ==
+  LET v == [d |-> Rec.d, e |-> Rec.e]  m == [d |-> Rec.dd, e |-> Rec.de]  tok == ProgramData(Rec.out, 1) IN
+     (IF tok.type = "DECIMAL" /\ tok.next = Len(Rec.out) + 1 THEN {} ELSE {"not-one-token"})
+  \cup (IF Rec.ok = 1 /\ Rec.errs = <<>> THEN {} ELSE {"not-accepted"})
+  \cup (IF G!Within(m, v, Rec.P, 7, 0 - 1) THEN {} ELSE {"decoded"})
+  \cup (IF G!IsZ(m) \/ Rec.dneg = Rec.neg THEN {} ELSE {"decoded-sign"})
+IntDiff == (IF Rec.out = Expected THEN {} ELSE {"emitted"})
    \cup (IF OneToken THEN {} ELSE {"not-one-token"})
    \cup (IF Rec.ok = 1 /\ Rec.errs = <<>> THEN {} ELSE {"not-accepted"})
    \cup (IF Rec.dec = Rec.v THEN {} ELSE {"decoded"})
+Diff == IF Rec.t \in {"dbl", "flt"} THEN FloatDiff ELSE IntDiff
 Conforms == Diff = {} \/ PrintT(<<"MISMATCH", l, Diff>>)
 =============================================================================
